@@ -510,7 +510,7 @@ pub fn run(tier: Tier, seed: u64, replay: Option<&std::path::Path>) -> i32 {
         40,
         strategy,
         run_case,
-        "sequences (1..9) of define / redefine / call over four command names in two contexts; definitions rendered from an AST: output = nothing, a single value, a list of 0..4 values of any JSON-able nu type, a 1..4 element stream, or a stream whose k-th element raises; optional explicit `.append` inside, environment mutation that detects state leaking between calls, sleep of 15/40 ms (so that 1..4 back-to-back calls overlap), custom suffix/ttl, a module; broken definitions (parse error, no `run` field) and closures that raise at once. Oracle per call: the frames stamped with its id are k results on <name><suffix> (configured ttl, JSON-equal content, in order) followed by exactly one <name>.complete, or exactly one <name>.error; all stamped with the latest valid definition that precedes the call, all in the caller's context; nothing for calls of undefined names; an invalid definition is reported once by <name>.error and never answers; after a kill + restart of the server no call has gained a stamped frame. Non-trivial = >= 2 overlapping calls or a redefine between two calls. Distinct by case hash.",
+        "sequences (1..9) of define / redefine / call over four command names in two contexts; definitions rendered from an AST: output = nothing, a single value, a list of 0..4 values of any JSON-able nu type, a 1..4 element stream, or a stream whose k-th element raises; optional explicit `.append` inside (exactly one `side.effect` frame per call, stamped with that call and the definition, content exact), optionally an explicit `.append` of the same bytes that the store refuses (unregistered context, inside `try`), environment mutation that detects state leaking between calls, sleep of 15/40 ms (so that 1..4 back-to-back calls overlap), custom suffix/ttl, a module; broken definitions (parse error, no `run` field) closures that raise at once, and closures that fail inside a built-in command given a malformed argument (`.cat --last-id \"not-an-id\"`). At the end every hash observed on any frame must be retrievable and hash to itself. Oracle per call: the frames stamped with its id are k results on <name><suffix> (configured ttl, JSON-equal content, in order) followed by exactly one <name>.complete, or exactly one <name>.error; all stamped with the latest valid definition that precedes the call, all in the caller's context; nothing for calls of undefined names; an invalid definition is reported once by <name>.error and never answers; after a kill + restart of the server no call has gained a stamped frame. Non-trivial = >= 2 overlapping calls or a redefine between two calls. Distinct by case hash.",
         vec![
             "calls are made in the context of the definition (what a same-named definition in another context does is C17's clause)".to_string(),
             "for errors raised lazily inside a stream only: one terminal event, stamps, context, and no more results than elements".to_string(),
